@@ -1,8 +1,8 @@
 CONSTANTS
   MaxLen = 3
   Small = 2
-  STEP0 = FALSE
-  DEVS = {"DEV_SLICE_STEP_OVERFLOW"}
+  STEP0 = TRUE
+  DEVS = {"NC_METHOD_STEP0_LOOPS"}
 SPECIFICATION Spec
-INVARIANTS Inv_NoFail
+INVARIANTS Inv_Bounded
 CHECK_DEADLOCK FALSE
